@@ -46,7 +46,7 @@ type cliInv struct {
 	Filters   []string // "+pattern" include / "-pattern" exclude, in order
 	Preserve  *string
 	Stdin     *string
-	Flags     []string // minifier option flags, e.g. --js-keep-var-names, --css-precision=3
+	Flags     []string          // minifier option flags, e.g. --js-keep-var-names, --css-precision=3
 	Ext       map[string]string // --ext.<extension>=<filetype or media type>
 }
 
